@@ -96,6 +96,11 @@ class Box:
         view['queries'].append(q)
         return q
 
+    def pick_program(self, gen):
+        if self.backend != 'dict' and self.rng.random() < 0.3:
+            return gen.or_meta_content()[0]
+        return gen.program()
+
     async def twin_pair(self, view: dict, gen) -> None:
         """The same program as SEARCH and then as UID SEARCH on a view that may
         hold hidden expunged messages (the UID SEARCH ends that state)."""
@@ -180,7 +185,7 @@ class Box:
         self.views.append(view)
         gen = S.KeyGen(rng, view['recs'])
         for _ in range(nq1):
-            await self.query('a', view, gen.program(), False, 'p1')
+            await self.query('a', view, self.pick_program(gen), False, 'p1')
         await self.localise(view)
         again = await self.probe('a', uid=False)
         view['stable'] = [(x['uid'], x['seq'], x['flags']) for x in again] == \
@@ -215,8 +220,17 @@ class Box:
                  'phase': 2, 'hidden_expunged': False, 'stable': True}
         self.views.append(view2)
         gen2 = S.KeyGen(rng, view2['recs'])
+        if self.backend != 'dict':
+            # OR with a metadata-only first and a content-needing second operand, and
+            # its commuted twin (SearchKey.requirement must carry both operands)
+            for _ in range(max(3, nq2 // 2)):
+                p_ab, p_ba = gen2.or_meta_content()
+                uid = rng.random() < 0.3
+                q1 = await self.query('a', view2, p_ab, uid, 'law:or_comm')
+                q2 = await self.query('a', view2, p_ba, uid, 'law:or_comm')
+                q1['law'] = ('or_comm', [q2])
         for _ in range(nq2):
-            prog = gen2.program()
+            prog = self.pick_program(gen2)
             qs = await self.query('a', view2, prog, False, 'p2')
             qu = await self.query('a', view2, prog, True, 'p2')
             qs['twin'] = qu
